@@ -49,7 +49,7 @@ L3 == [name |-> "L3", linear |-> TRUE, vars |-> <<"x", "z">>, logv |-> {}, shock
                   [tx |-> << <<R(1), 2, 0>>, <<Q(-1, 2), 2, -1>> >>, te |-> << <<R(-1), 2>> >>, c |-> RZero] >>,
        mvars |-> <<"obs", "obz">>, mshocks |-> <<"w">>,
        meqs |-> << [tx |-> << <<R(1), 1, 0>> >>, d |-> RZero, tw |-> << <<R(1), 1>> >>],
-                   [tx |-> << <<R(1), 2, 0>>, <<R(1), 1, -1>> >>, d |-> R(2), tw |-> <<>>] >>,
+                   [tx |-> << <<R(1), 2, 0>>, <<R(1), 1, -1>> >>, d |-> R(2), tw |-> << <<R(3), 1>> >>] >>,
        T |-> << <<Q(1, 2), Q(1, 3)>>, <<RZero, Q(1, 2)>> >>, K |-> <<RZero, RZero>>,
        roots |-> <<Q(1, 2), R(2), Q(1, 2)>>, fwd |-> 1]
 L3Rk(k) == << <<HalfPow(k + 1), RMul(Q(2, 3), HalfPow(k))>>, <<RZero, IF k = 0 THEN ROne ELSE RZero>> >>
